@@ -199,11 +199,18 @@ package node_info
 //@   inline
 //@ end
 
+// C13 "any sequence of virtual ... nominate ... steps that an action later discards, or rolls back ... leaves the
+// scheduler's view of nodes ... exactly as it was" / C14: un-nominating a sharer must be the MIRROR of nominating it.
+// Nominating a sharer onto group g takes one whole GPU out of Releasing exactly when, before it arrived, all used
+// memory of g was releasing (used[g] == releasing[g], which includes the unused group 0 == 0). The question is asked
+// after the sharer's memory has been taken back out of used[g] / put back into releasing[g], i.e. in that same
+// "before it arrived" state. (The contract used to copy the code, which compared the state WITH the sharer:
+// used+m == releasing-m; finding C14-pipelined-mirror, fixed in /repo.)
 //@ func (*NodeInfo).isPipelinedToReleasingGpu
-//@   props C02 C14
+//@   props C02 C14 C13
 //@   requires ni != nil && task != nil && task.ResReq != nil
 //@   pure
-//@   ensures result == (ni.UsedSharedGPUsMemory[gpuGroup] + needMem(ni, task.ResReq) == ni.ReleasingSharedGPUsMemory[gpuGroup] - needMem(ni, task.ResReq) || (ni.UsedSharedGPUsMemory[gpuGroup] == 0 && ni.ReleasingSharedGPUsMemory[gpuGroup] == 0))
+//@   ensures [mirrorOfNomination] result == (ni.UsedSharedGPUsMemory[gpuGroup] == ni.ReleasingSharedGPUsMemory[gpuGroup])
 //@ end
 
 // C14/C02: a sharer of GPU group g with memory need m is accounted per status:
@@ -228,6 +235,9 @@ package node_info
 
 // C14/C02: removal mirrors the addition for every status (used[g] -= m; Releasing: releasing[g] -= m, allocated[g] -= m;
 // Pipelined: releasing[g] += m; other: allocated[g] -= m). Idle gains at most one whole GPU, only when the group closes.
+// C13: for a nominated (Pipelined) sharer the whole-GPU part is the exact mirror too: Releasing gets one GPU back iff,
+// in the state after the removal (= the state before the nomination), all used memory of g is releasing - the very
+// condition under which addSharedTaskResourcesPerPodGroup took it away ([releasingGpus] there: old(used) == old(releasing)).
 //@ func (*NodeInfo).removeSharedTaskResourcesPerPodGroup
 //@   props C02 C14
 //@   requires nodeWF(ni) && task != nil && task.ResReq != nil
@@ -236,7 +246,7 @@ package node_info
 //@   ensures [releasing] ni.ReleasingSharedGPUsMemory[gpuGroup] == old(ni.ReleasingSharedGPUsMemory[gpuGroup]) - ite(task.Status == pod_status.Releasing, needMem(ni, task.ResReq), ite(task.Status == pod_status.Pipelined, 0 - needMem(ni, task.ResReq), 0))
 //@   ensures [allocated] ni.AllocatedSharedGPUsMemory[gpuGroup] == old(ni.AllocatedSharedGPUsMemory[gpuGroup]) - ite(task.Status == pod_status.Pipelined, 0, needMem(ni, task.ResReq))
 //@   ensures [marker] markedReleasing(ni, gpuGroup) == ite(task.Status == pod_status.Releasing, old(markedReleasing(ni, gpuGroup)) && ni.UsedSharedGPUsMemory[gpuGroup] > 0, ite(task.Status == pod_status.Pipelined, old(markedReleasing(ni, gpuGroup)), old(markedReleasing(ni, gpuGroup)) || gpuReleasingFromShared(ni, gpuGroup)))
-//@   ensures [releasingGpus] ni.Releasing.gpus == old(ni.Releasing.gpus) + ite(task.Status == pod_status.Releasing, ite(old(markedReleasing(ni, gpuGroup)) && ni.UsedSharedGPUsMemory[gpuGroup] <= 0, 0.0 - 1.0, 0.0), ite(task.Status == pod_status.Pipelined, ite(old(ni.UsedSharedGPUsMemory[gpuGroup]) == old(ni.ReleasingSharedGPUsMemory[gpuGroup]) || (ni.UsedSharedGPUsMemory[gpuGroup] == 0 && ni.ReleasingSharedGPUsMemory[gpuGroup] == 0), 1.0, 0.0), ite(!old(markedReleasing(ni, gpuGroup)) && gpuReleasingFromShared(ni, gpuGroup), 1.0, 0.0)))
+//@   ensures [releasingGpus] ni.Releasing.gpus == old(ni.Releasing.gpus) + ite(task.Status == pod_status.Releasing, ite(old(markedReleasing(ni, gpuGroup)) && ni.UsedSharedGPUsMemory[gpuGroup] <= 0, 0.0 - 1.0, 0.0), ite(task.Status == pod_status.Pipelined, ite(ni.UsedSharedGPUsMemory[gpuGroup] == ni.ReleasingSharedGPUsMemory[gpuGroup], 1.0, 0.0), ite(!old(markedReleasing(ni, gpuGroup)) && gpuReleasingFromShared(ni, gpuGroup), 1.0, 0.0)))
 //@   ensures [idleGpus] ni.Idle.gpus == old(ni.Idle.gpus) || (ni.Idle.gpus == old(ni.Idle.gpus) + 1.0 && task.Status != pod_status.Pipelined && ni.UsedSharedGPUsMemory[gpuGroup] <= 0)
 //@   ensures nodeWF(ni)
 //@ end
@@ -392,6 +402,7 @@ package node_info
 //@ func (*NodeInfo).addTaskResources
 //@   props C01 C14 C02
 //@   requires nodeWF(ni) && taskChargeable(task)
+//@   assume draSeparate(ni, task)
 //@   modifies ni.Used.milliCpu, ni.Used.memory, ni.Used.gpus, ni.Used.scalarResources[*], ni.Idle.milliCpu, ni.Idle.memory, ni.Idle.gpus, ni.Idle.scalarResources[*], ni.Releasing.milliCpu, ni.Releasing.memory, ni.Releasing.gpus, ni.Releasing.scalarResources[*], ni.UsedVector[*], ni.IdleVector[*], ni.ReleasingVector[*], ni.UsedSharedGPUsMemory[*], ni.ReleasingSharedGPUsMemory[*], ni.AllocatedSharedGPUsMemory[*], ni.ReleasingSharedGPUs[*], sumIdleGPUs(ni), sumIdleGPUMem(ni), sumReleasingGPUs(ni), sumReleasingGPUMem(ni)
 //@   ensures [usedCpuMem] ni.Used.milliCpu == old(ni.Used.milliCpu) + task.AcceptedResource.milliCpu && ni.Used.memory == old(ni.Used.memory) + task.AcceptedResource.memory
 //@   ensures [idleCpuMem] ni.Idle.milliCpu == old(ni.Idle.milliCpu) - idlePart(task, task.AcceptedResource.milliCpu) && ni.Idle.memory == old(ni.Idle.memory) - idlePart(task, task.AcceptedResource.memory)
@@ -411,6 +422,7 @@ package node_info
 //@ func (*NodeInfo).removeTaskResources
 //@   props C01 C14 C02
 //@   requires nodeWF(ni) && taskChargeable(task)
+//@   assume draSeparate(ni, task)
 //@   modifies ni.Used.milliCpu, ni.Used.memory, ni.Used.gpus, ni.Used.scalarResources[*], ni.Idle.milliCpu, ni.Idle.memory, ni.Idle.gpus, ni.Idle.scalarResources[*], ni.Releasing.milliCpu, ni.Releasing.memory, ni.Releasing.gpus, ni.Releasing.scalarResources[*], ni.UsedVector[*], ni.IdleVector[*], ni.ReleasingVector[*], ni.UsedSharedGPUsMemory[*], ni.ReleasingSharedGPUsMemory[*], ni.AllocatedSharedGPUsMemory[*], ni.ReleasingSharedGPUs[*], sumIdleGPUs(ni), sumIdleGPUMem(ni), sumReleasingGPUs(ni), sumReleasingGPUMem(ni)
 //@   ensures [usedCpuMem] ni.Used.milliCpu == old(ni.Used.milliCpu) - task.AcceptedResource.milliCpu && ni.Used.memory == old(ni.Used.memory) - task.AcceptedResource.memory
 //@   ensures [idleCpuMem] ni.Idle.milliCpu == old(ni.Idle.milliCpu) + idlePart(task, task.AcceptedResource.milliCpu) && ni.Idle.memory == old(ni.Idle.memory) + idlePart(task, task.AcceptedResource.memory)
@@ -437,6 +449,7 @@ package node_info
 //@   ensures [base] pod_status.IsActiveUsedStatus(pi.Status) ==> pi.AcceptedResource.milliCpu == pi.ResReq.milliCpu && pi.AcceptedResource.memory == pi.ResReq.memory && (forall k v1.ResourceName :: pi.AcceptedResource.scalarResources[k] == pi.ResReq.scalarResources[k] && (k in pi.AcceptedResource.scalarResources <==> k in pi.ResReq.scalarResources))
 //@   ensures [kind] pod_status.IsActiveUsedStatus(pi.Status) ==> pi.ResourceReceivedType == ite(pi.ResourceRequestType == "MigInstance", "MigInstance", ite(pi.ResourceRequestType == "Fraction" || pi.ResourceRequestType == "GpuMemory", "Fraction", "Regular"))
 //@   ensures [fraction] pod_status.IsActiveUsedStatus(pi.Status) && (pi.ResourceRequestType == "Fraction" || pi.ResourceRequestType == "GpuMemory") ==> pi.AcceptedResource.count == pi.ResReq.count && pi.AcceptedResource.portion == gpuPortion(ni, pi.ResReq) && pi.AcceptedResource.gpuMemory == needMem(ni, pi.ResReq)
+//@   ensures [ownMigMap] pod_status.IsActiveUsedStatus(pi.Status) ==> pi.AcceptedResource.migResources == nil || pi.AcceptedResource.migResources == pi.ResReq.migResources || fresh(pi.AcceptedResource.migResources)   // added by helper "cache"
 //@   ensures [mig] pod_status.IsActiveUsedStatus(pi.Status) && pi.ResourceRequestType == "MigInstance" ==> pi.AcceptedResource.migResources == pi.ResReq.migResources && pi.AcceptedResource.count == 0 && pi.AcceptedResource.portion == 0.0
 //@ end
 
@@ -459,6 +472,13 @@ package node_info
 // a task that can be handed to AddTask/RemoveTask/UpdateTask (code-derived nil-ness; PodInfo constructors establish it)
 //@ define taskWF(task *pod_info.PodInfo) bool = task != nil && task.Pod != nil && task.ResReq != nil && task.ResReq.scalarResources != nil && task.AcceptedResource != nil && task.AcceptedResource.scalarResources != nil
 // the maps of the task's request are not the node's own accounting maps
+// The per-claim DRA count map of a task's resource objects is not one of the node's per-GPU-group memory maps (same Go map
+// type map[string]int64). Since draSum is a real sum over the map (batch 11; it was a ghost attribute of the map object
+// before, which hid this), the charged GPU amount of a task is only stable across the node's own bookkeeping writes if
+// the maps are different objects. True by construction (draGpuCounts maps are made by the resource_info constructors and
+// SetDraGpus only); stated as an `assume` in the units that need it and listed in the evidence.
+//@ define notNodeGpuMap(ni *NodeInfo, m map[string]int64) bool = m != ni.UsedSharedGPUsMemory && m != ni.ReleasingSharedGPUsMemory && m != ni.AllocatedSharedGPUsMemory
+//@ define draSeparate(ni *NodeInfo, task *pod_info.PodInfo) bool = (task.AcceptedResource != nil ==> notNodeGpuMap(ni, task.AcceptedResource.draGpuCounts)) && (task.ResReq != nil ==> notNodeGpuMap(ni, task.ResReq.draGpuCounts))
 //@ define notNodeMap(ni *NodeInfo, m map[v1.ResourceName]int64) bool = m != ni.Idle.scalarResources && m != ni.Used.scalarResources && m != ni.Releasing.scalarResources
 //@ define taskSeparate(ni *NodeInfo, task *pod_info.PodInfo) bool = notNodeMap(ni, task.ResReq.scalarResources) && notNodeMap(ni, task.ResReq.migResources) && notNodeMap(ni, task.AcceptedResource.scalarResources) && notNodeMap(ni, task.AcceptedResource.migResources)
 //@ define podsWF(ni *NodeInfo) bool = ni.PodInfos != nil && ni.LegacyMIGTasks != nil && ni.PodAffinityInfo != nil
@@ -481,6 +501,11 @@ package node_info
 //@   ensures [idleGpus] result == nil && task.ResourceReceivedType != "Fraction" ==> ni.Idle.gpus == old(ni.Idle.gpus) - idlePart(task, nodeChargedGpus(task))
 //@   ensures [relGpus] result == nil && task.ResourceReceivedType != "Fraction" ==> ni.Releasing.gpus == old(ni.Releasing.gpus) + relPart(task, nodeChargedGpus(task))
 //@   ensures [accepted] pod_status.IsActiveUsedStatus(task.Status) ==> task.AcceptedResource.milliCpu == task.ResReq.milliCpu && task.AcceptedResource.memory == task.ResReq.memory && (forall k v1.ResourceName :: task.AcceptedResource.scalarResources[k] == old(task.ResReq.scalarResources[k]))
+//@   ensures [separate] taskSeparate(ni, task)   // added by helper "cache"
+//@   ensures [acceptedOwn] task.AcceptedResource == old(task.AcceptedResource) || acceptedFresh(task)   // added by helper "cache"
+//@   ensures [keyRecorded] pod_info.podKeyOf(task.Pod) in ni.PodInfos   // added by helper "cache": also when the call fails the pod is (still) recorded
+//@   ensures [recordsNonNil] old(forall k in ni.PodInfos :: ni.PodInfos[k] != nil) ==> (forall k in ni.PodInfos :: ni.PodInfos[k] != nil)   // added by helper "cache"
+//@   ensures [stmt2-recordedGroups] result == nil ==> sameGroups(storedTask(ni, task), task)   // added by helper "stmt2": the recorded copy sits on the GPU groups the task had at call time
 //@   ensures nodeWF(ni) && podsWF(ni) && taskWF(task)
 //@ end
 
@@ -500,6 +525,11 @@ package node_info
 //@   ensures [idleGpus] result == nil && task.ResourceReceivedType != "Fraction" ==> ni.Idle.gpus == old(ni.Idle.gpus) - idlePart(task, nodeChargedGpus(task))
 //@   ensures [relGpus] result == nil && task.ResourceReceivedType != "Fraction" ==> ni.Releasing.gpus == old(ni.Releasing.gpus) + relPart(task, nodeChargedGpus(task))
 //@   ensures [accepted] pod_status.IsActiveUsedStatus(task.Status) ==> task.AcceptedResource.milliCpu == task.ResReq.milliCpu && task.AcceptedResource.memory == task.ResReq.memory && (forall k v1.ResourceName :: task.AcceptedResource.scalarResources[k] == old(task.ResReq.scalarResources[k]))
+//@   ensures [separate] taskSeparate(ni, task)   // added by helper "cache"
+//@   ensures [acceptedOwn] task.AcceptedResource == old(task.AcceptedResource) || acceptedFresh(task)   // added by helper "cache"
+//@   ensures [keyRecorded] pod_info.podKeyOf(task.Pod) in ni.PodInfos   // added by helper "cache": also when the call fails the pod is (still) recorded
+//@   ensures [recordsNonNil] old(forall k in ni.PodInfos :: ni.PodInfos[k] != nil) ==> (forall k in ni.PodInfos :: ni.PodInfos[k] != nil)   // added by helper "cache"
+//@   ensures [stmt2-recordedGroups] result == nil ==> sameGroups(storedTask(ni, task), task)   // added by helper "stmt2": the recorded copy sits on the GPU groups the task had at call time
 //@   ensures nodeWF(ni) && podsWF(ni) && taskWF(task)
 //@ end
 
@@ -512,6 +542,7 @@ package node_info
 //@   ensures [usedCpuMem] result == nil ==> ni.Used.milliCpu == old(ni.Used.milliCpu) + ti.AcceptedResource.milliCpu && ni.Used.memory == old(ni.Used.memory) + ti.AcceptedResource.memory
 //@   ensures [usedGpus] result == nil ==> ni.Used.gpus == old(ni.Used.gpus) + nodeChargedGpus(ti)
 //@   ensures [otherPods] forall k common_info.PodID :: k != pod_info.podKeyOf(ti.Pod) ==> ni.PodInfos[k] == old(ni.PodInfos[k]) && (k in ni.PodInfos <==> old(k in ni.PodInfos))
+//@   ensures [stmt2-recorded] result == nil ==> pod_info.podKeyOf(ti.Pod) in ni.PodInfos && ni.PodInfos[pod_info.podKeyOf(ti.Pod)].Status == ti.Status && sameGroups(ni.PodInfos[pod_info.podKeyOf(ti.Pod)], ti)   // added by helper "stmt2": the re-recorded copy carries the task's status and (new) GPU groups
 //@   ensures nodeWF(ni) && podsWF(ni) && taskWF(ti)
 //@ end
 
@@ -543,6 +574,7 @@ package node_info
 //@ func (*NodeInfo).UpdateTask
 //@   props C01 C14 C02 C13
 //@   requires nodeWF(ni) && podsWF(ni) && taskWF(ti) && taskSeparate(ni, ti) && storedOK(ni, ti)
+//@   assume draSeparate(ni, ti) && (pod_info.podKeyOf(ti.Pod) in ni.PodInfos ==> draSeparate(ni, storedTask(ni, ti)))
 //@   modifies ti.AcceptedResource, ti.ResourceReceivedType, ni.PodInfos[*], ni.LegacyMIGTasks[*], ni.Used.milliCpu, ni.Used.memory, ni.Used.gpus, ni.Used.scalarResources[*], ni.Idle.milliCpu, ni.Idle.memory, ni.Idle.gpus, ni.Idle.scalarResources[*], ni.Releasing.milliCpu, ni.Releasing.memory, ni.Releasing.gpus, ni.Releasing.scalarResources[*], ni.UsedVector[*], ni.IdleVector[*], ni.ReleasingVector[*], ni.UsedSharedGPUsMemory[*], ni.ReleasingSharedGPUsMemory[*], ni.AllocatedSharedGPUsMemory[*], ni.ReleasingSharedGPUs[*], sumIdleGPUs(ni), sumIdleGPUMem(ni), sumReleasingGPUs(ni), sumReleasingGPUMem(ni)
 //@   ensures [notFound] !old(pod_info.podKeyOf(ti.Pod) in ni.PodInfos) ==> result != nil && ni.Used.milliCpu == old(ni.Used.milliCpu) && ni.Used.memory == old(ni.Used.memory) && ni.Used.gpus == old(ni.Used.gpus) && ni.Idle.milliCpu == old(ni.Idle.milliCpu) && ni.Idle.memory == old(ni.Idle.memory) && ni.Idle.gpus == old(ni.Idle.gpus) && ni.Releasing.milliCpu == old(ni.Releasing.milliCpu) && ni.Releasing.memory == old(ni.Releasing.memory) && ni.Releasing.gpus == old(ni.Releasing.gpus)
 //@   ensures [otherPods] forall k common_info.PodID :: k != pod_info.podKeyOf(ti.Pod) ==> ni.PodInfos[k] == old(ni.PodInfos[k]) && (k in ni.PodInfos <==> old(k in ni.PodInfos))
@@ -553,5 +585,120 @@ package node_info
 //@   ensures [relCpu] result == nil ==> ni.Releasing.milliCpu == old(ni.Releasing.milliCpu) - old(relPart(storedTask(ni, ti), storedTask(ni, ti).AcceptedResource.milliCpu)) + relPart(ti, ti.AcceptedResource.milliCpu)
 //@   ensures [usedGpus] result == nil ==> ni.Used.gpus == old(ni.Used.gpus) - old(nodeChargedGpus(storedTask(ni, ti))) + nodeChargedGpus(ti)
 //@   ensures [idleGpus] result == nil && old(storedTask(ni, ti).ResourceReceivedType) != "Fraction" && ti.ResourceReceivedType != "Fraction" ==> ni.Idle.gpus == old(ni.Idle.gpus) + old(idlePart(storedTask(ni, ti), nodeChargedGpus(storedTask(ni, ti)))) - idlePart(ti, nodeChargedGpus(ti))
+//@   ensures [stmt2-recordedGroups] result == nil ==> sameGroups(storedTask(ni, ti), ti)   // added by helper "stmt2"
+//@   ensures [stmt2-failedForgets] result != nil ==> !(pod_info.podKeyOf(ti.Pod) in ni.PodInfos)   // added by helper "stmt2": a failed update (pod not recorded, or pod-affinity error of RemoveTask) leaves no record
 //@   ensures nodeWF(ni) && podsWF(ni) && taskWF(ti)
+//@ end
+
+// ---- added by helper "stmt2" ----
+// C13/C02: the copy of a pod recorded on a node carries the GPU groups of the task handed to AddTask / UpdateTask (the
+// clone shares the slice); the node's per-group shared-GPU bookkeeping is charged from that copy
+//@ define sameGroups(a *pod_info.PodInfo, b *pod_info.PodInfo) bool = a.GPUGroups == b.GPUGroups
+
+// ---- added by helper "cache" ----
+// Snapshot construction of a node and of its pods (cluster_info.Snapshot): C14/C01 establish, C12 charge, C10 total.
+
+// per-GPU memory of a node as read from its `nvidia.com/gpu.memory` label (bytes above 1 TiB-in-MiB are converted,
+// the value is floored to a multiple of 100); 100 when the label is absent or not an int64
+//@ define gpuMemLabelOk(node *v1.Node) bool = tuple1(strconv.ParseInt(node.Labels[GpuMemoryLabel], 10, 64)) == nil
+//@ define gpuMemLabel(node *v1.Node) int = tuple0(strconv.ParseInt(node.Labels[GpuMemoryLabel], 10, 64))
+//@ define gpuMemMib(v int) int = ite(v < TibInMib, v, v / BitToMib)
+//@ define nodeGpuMemory(node *v1.Node) int = ite(gpuMemLabelOk(node), gpuMemMib(gpuMemLabel(node)) - gpuMemMib(gpuMemLabel(node)) % 100, DefaultGpuMemory)
+
+// two amounts agree field by field (cpu, memory, whole GPUs, every scalar resource incl. presence)
+//@ define sameResource(a *ri.Resource, b *ri.Resource) bool = a.milliCpu == b.milliCpu && a.memory == b.memory && a.gpus == b.gpus && (forall k v1.ResourceName :: a.scalarResources[k] == b.scalarResources[k] && (k in a.scalarResources <==> k in b.scalarResources))
+//@ define zeroResource(a *ri.Resource) bool = a.milliCpu == 0.0 && a.memory == 0.0 && a.gpus == 0.0 && (forall k v1.ResourceName :: !(k in a.scalarResources))
+// the amount a resource list denotes (see resource_info.ResourceFromResourceList)
+//@ define isListAmount(a *ri.Resource, rl v1.ResourceList) bool = a.milliCpu == real(ri.rlMilli(rl, v1.ResourceCPU)) && a.memory == real(ri.rlValue(rl, v1.ResourceMemory)) && a.gpus == real(ri.rlValue(rl, ri.GPUResourceName)) + real(ri.rlValue(rl, ri.amdGpuResourceName)) && (forall k v1.ResourceName :: a.scalarResources[k] == ri.rlScalar(rl, k) && (k in a.scalarResources <==> ri.rlScalarHas(rl, k)))
+// no shared-GPU bookkeeping yet
+//@ define noSharedGpus(ni *NodeInfo) bool = forall g string :: !(g in ni.UsedSharedGPUsMemory) && !(g in ni.ReleasingSharedGPUsMemory) && !(g in ni.AllocatedSharedGPUsMemory) && !(g in ni.ReleasingSharedGPUs)
+// nodeWF without its two data conditions that a snapshot cannot promise for EVERY API state: a positive per-GPU memory
+// (label value in [0,99] or negative: finding F1) and vectors as long as the shared layout (the layout grows while the
+// snapshot is built)
+//@ define nodeShape(ni *NodeInfo) bool = ni != nil && ni.Node != nil && ni.Idle != nil && ni.Releasing != nil && ni.Used != nil && ni.Allocatable != nil && ni.Idle != ni.Releasing && ni.Idle != ni.Used && ni.Used != ni.Releasing && resWF(ni) && gpuMapsWF(ni) && ni.VectorMap != nil
+
+// C14 "what the scheduler believes about each node (idle, used and releasing resources ..., pods present) ... equals
+// the value recomputed from scratch from the pods": a node WITHOUT pods has Used = Releasing = 0, no shared-GPU
+// entries, no pods, and Idle = Allocatable = the amount of node.status.allocatable (C01 observes "node.status.allocatable").
+// C10 "nodes without labels or with zero capacity": total for every node object (nil label / allocatable maps included).
+//@ func NewNodeInfo
+//@   props C14 C01 C10
+//@   requires node != nil && ri.vmWF(vectorMap)
+//@   fresh
+//@   ensures [identity] result.Node == node && result.Name == node.Name && result.VectorMap == vectorMap && result.PodAffinityInfo == podAffinityInfo
+//@   ensures [gpuMemory] result.MemoryOfEveryGpuOnNode == nodeGpuMemory(node) && result.GpuMemorySynced == gpuMemLabelOk(node)
+//@   ensures [allocatable] isListAmount(result.Allocatable, node.Status.Allocatable)
+//@   ensures [idleIsAllocatable] sameResource(result.Idle, result.Allocatable)
+//@   ensures [nothingUsed] zeroResource(result.Used) && zeroResource(result.Releasing)
+//@   ensures [noPods] (forall k common_info.PodID :: !(k in result.PodInfos) && !(k in result.LegacyMIGTasks)) && noSharedGpus(result)
+//@   ensures [shape] nodeShape(result) && fresh(result.Idle) && fresh(result.Used) && fresh(result.Releasing) && fresh(result.Allocatable) && result.Allocatable != result.Idle && result.Allocatable.scalarResources != result.Idle.scalarResources
+//@   ensures [vectors] len(result.IdleVector) == len(vectorMap.resourceNames) && len(result.UsedVector) == len(vectorMap.resourceNames) && len(result.ReleasingVector) == len(vectorMap.resourceNames) && len(result.AllocatableVector) == len(vectorMap.resourceNames) && ri.freshArray(result.AllocatableVector) && ri.freshArray(result.IdleVector)
+//@   ensures [wf] nodeGpuMemory(node) > 0 ==> nodeWF(result)
+//@   ensures [podsWF] result.PodInfos != nil && fresh(result.PodInfos) && result.LegacyMIGTasks != nil && fresh(result.LegacyMIGTasks)
+//@ end
+
+// the accepted-resources object of the task was made by this call: new object, new scalar map, MIG map nil / the request's / new
+//@ define acceptedFresh(t *pod_info.PodInfo) bool = fresh(t.AcceptedResource) && t.AcceptedResource.scalarResources != nil && fresh(t.AcceptedResource.scalarResources) && (t.AcceptedResource.migResources == nil || t.AcceptedResource.migResources == t.ResReq.migResources || fresh(t.AcceptedResource.migResources))
+// the accounting of the node did not move (cpu, memory, whole GPUs, every scalar resource incl. presence in Idle)
+//@ define acctUntouched(ni *NodeInfo) bool = ni.Used.milliCpu == old(ni.Used.milliCpu) && ni.Used.memory == old(ni.Used.memory) && ni.Used.gpus == old(ni.Used.gpus) && ni.Idle.milliCpu == old(ni.Idle.milliCpu) && ni.Idle.memory == old(ni.Idle.memory) && ni.Idle.gpus == old(ni.Idle.gpus) && ni.Releasing.milliCpu == old(ni.Releasing.milliCpu) && ni.Releasing.memory == old(ni.Releasing.memory) && ni.Releasing.gpus == old(ni.Releasing.gpus)
+//@ define acctScalarsUntouched(ni *NodeInfo) bool = forall k v1.ResourceName :: ni.Used.scalarResources[k] == old(ni.Used.scalarResources[k]) && ni.Idle.scalarResources[k] == old(ni.Idle.scalarResources[k]) && ni.Releasing.scalarResources[k] == old(ni.Releasing.scalarResources[k]) && (k in ni.Idle.scalarResources <==> old(k in ni.Idle.scalarResources))
+// exact effect of ONE occupying pod t on the node (C14/C01: "Idle/Used/Releasing are exactly Allocatable minus/plus the
+// per-status effect of each pod added"): its request (cpu, memory, whole GPUs unless it is a reservation pod) is added
+// to Used; taken from Idle unless the pod is Pipelined; added to Releasing when it is Releasing (taken from it when
+// Pipelined).  Fractional GPU requests are charged per shared GPU (addSharedTaskResources), not stated here.
+//@ define firstCharged(ni *NodeInfo, t *pod_info.PodInfo) bool = ni.Used.milliCpu == old(ni.Used.milliCpu) + t.ResReq.milliCpu && ni.Used.memory == old(ni.Used.memory) + t.ResReq.memory && ni.Idle.milliCpu == old(ni.Idle.milliCpu) - idlePart(t, t.ResReq.milliCpu) && ni.Idle.memory == old(ni.Idle.memory) - idlePart(t, t.ResReq.memory) && ni.Releasing.milliCpu == old(ni.Releasing.milliCpu) + relPart(t, t.ResReq.milliCpu) && ni.Releasing.memory == old(ni.Releasing.memory) + relPart(t, t.ResReq.memory) && ni.Used.gpus == old(ni.Used.gpus) + nodeChargedGpus(t) && (t.ResourceReceivedType != "Fraction" ==> ni.Idle.gpus == old(ni.Idle.gpus) - idlePart(t, nodeChargedGpus(t)) && ni.Releasing.gpus == old(ni.Releasing.gpus) + relPart(t, nodeChargedGpus(t)))
+// every task of the list can be handed to AddTask (quantified over the element cells r = &ts[i]; `from` is unused)
+//@ define tasksAddable(ni *NodeInfo, ts []*pod_info.PodInfo, from int) bool = forall r **pod_info.PodInfo :: incells(r, ts) ==> taskWF(*r) && taskSeparate(ni, *r)
+
+// C14/C01/C12 (snapshot): "every snapshot charges the pod's resources ... to the selected node" /
+// "pods already occupying the node (running, terminating, bound or being bound)": every pod of the list whose status
+// occupies the node (Allocated, Pipelined, Binding, Bound, Running, Releasing) has been handed to AddTask (which charges
+// it by status, see AddTask/addTaskResources) and is recorded on the node afterwards.  Exact accounting for 0 and 1
+// pods: no pod - nothing moves; one pod in any other status (Pending, Gated, Succeeded, Failed, Unknown: "their pods
+// become schedulable again") - nothing moves; one occupying pod - exactly its request moves, by status (firstCharged).
+// (The same for n pods is a sum over the list; the loop form "nothing moves while no visited pod occupies the node"
+// was dropped: its quantified antecedent made obligations take > 20 s.)  Every pod of the list is registered in
+// existingPodsMap under its UID and returned, in order.
+//@ func (*NodeInfo).AddTasksToNode
+//@   props C14 C01 C12 C10
+//@   requires nodeWF(ni) && podsWF(ni) && existingPodsMap != nil && existingPodsMap != ni.PodInfos
+//@   requires tasksAddable(ni, podInfos, 0)
+//@   requires forall i int :: 0 <= i && i < len(podInfos) ==> pod_status.isStatus(podInfos[i].Status)   // one of the declared statuses (what getTaskStatus returns): lets the clauses name the status class as a set (stActiveUsed) instead of a bit mask
+//@   modifies existingPodsMap[*], family(podInfos[0].AcceptedResource), family(podInfos[0].ResourceReceivedType), ni.PodInfos[*], ni.LegacyMIGTasks[*], ni.Used.milliCpu, ni.Used.memory, ni.Used.gpus, ni.Used.scalarResources[*], ni.Idle.milliCpu, ni.Idle.memory, ni.Idle.gpus, ni.Idle.scalarResources[*], ni.Releasing.milliCpu, ni.Releasing.memory, ni.Releasing.gpus, ni.Releasing.scalarResources[*], ni.UsedVector[*], ni.IdleVector[*], ni.ReleasingVector[*], ni.UsedSharedGPUsMemory[*], ni.ReleasingSharedGPUsMemory[*], ni.AllocatedSharedGPUsMemory[*], ni.ReleasingSharedGPUs[*], sumIdleGPUs(ni), sumIdleGPUMem(ni), sumReleasingGPUs(ni), sumReleasingGPUMem(ni)
+//@   loop 1
+//@     invariant 0 - 1 <= rangeindex && rangeindex < len(podInfos)
+//@     invariant nodeWF(ni) && podsWF(ni)
+//@     invariant forall i int :: 0 <= i && i < len(podInfos) ==> pod_status.isStatus(podInfos[i].Status)
+//@     invariant forall t *pod_info.PodInfo :: t.AcceptedResource == old(t.AcceptedResource) || acceptedFresh(t)
+//@     invariant len(resultPods) == rangeindex + 1 && (forall i int :: 0 <= i && i <= rangeindex ==> resultPods[i] == podInfos[i].Pod)
+//@     invariant forall k common_info.PodID :: old(k in ni.PodInfos) ==> k in ni.PodInfos
+//@     invariant forall i int :: 0 <= i && i <= rangeindex && pod_status.stActiveUsed(podInfos[i].Status) ==> pod_info.podKeyOf(podInfos[i].Pod) in ni.PodInfos
+//@     invariant forall k common_info.PodID :: old(k in existingPodsMap) ==> k in existingPodsMap
+//@     invariant forall i int :: 0 <= i && i <= rangeindex ==> podInfos[i].UID in existingPodsMap && existingPodsMap[podInfos[i].UID] != nil && existingPodsMap[podInfos[i].UID].UID == podInfos[i].UID
+//@     invariant old(forall k in ni.PodInfos :: ni.PodInfos[k] != nil) ==> (forall k in ni.PodInfos :: ni.PodInfos[k] != nil)
+//@     invariant rangeindex == 0 - 1 ==> acctUntouched(ni) && acctScalarsUntouched(ni)
+//@     invariant rangeindex == 0 - 1 ==> (forall k common_info.PodID :: (k in ni.PodInfos) == old(k in ni.PodInfos))
+//@     invariant rangeindex == 0 && !pod_status.stActiveUsed(podInfos[0].Status) ==> acctUntouched(ni) && acctScalarsUntouched(ni)
+//@     invariant rangeindex == 0 && pod_status.stActiveUsed(podInfos[0].Status) && !old(pod_info.podKeyOf(podInfos[0].Pod) in ni.PodInfos) ==> firstCharged(ni, podInfos[0])
+//@   ensures [allReturned] len(resultPods) == len(podInfos) && (forall i int :: 0 <= i && i < len(podInfos) ==> resultPods[i] == podInfos[i].Pod)
+//@   ensures [occupyingPodsRecorded] forall i int :: 0 <= i && i < len(podInfos) && pod_status.stActiveUsed(podInfos[i].Status) ==> pod_info.podKeyOf(podInfos[i].Pod) in ni.PodInfos
+//@   ensures [noPodNothingCharged] len(podInfos) == 0 ==> acctUntouched(ni) && acctScalarsUntouched(ni)
+//@   ensures [onePodNotOccupying] len(podInfos) == 1 && !pod_status.stActiveUsed(podInfos[0].Status) ==> acctUntouched(ni) && acctScalarsUntouched(ni)
+//@   ensures [onePodOccupying] len(podInfos) == 1 && pod_status.stActiveUsed(podInfos[0].Status) && !old(pod_info.podKeyOf(podInfos[0].Pod) in ni.PodInfos) ==> firstCharged(ni, podInfos[0])
+//@   ensures [registered] forall i int :: 0 <= i && i < len(podInfos) ==> podInfos[i].UID in existingPodsMap && existingPodsMap[podInfos[i].UID] != nil && existingPodsMap[podInfos[i].UID].UID == podInfos[i].UID
+//@   ensures [registeredKept] forall k common_info.PodID :: old(k in existingPodsMap) ==> k in existingPodsMap
+//@   ensures [recordedKept] forall k common_info.PodID :: old(k in ni.PodInfos) ==> k in ni.PodInfos
+//@   ensures [acceptedKeptOrOwn] forall t *pod_info.PodInfo :: t.AcceptedResource == old(t.AcceptedResource) || acceptedFresh(t)
+//@   ensures [recordsNonNil] old(forall k in ni.PodInfos :: ni.PodInfos[k] != nil) ==> (forall k in ni.PodInfos :: ni.PodInfos[k] != nil)
+//@   ensures [wf] nodeWF(ni) && podsWF(ni)
+//@ end
+
+// C14 (establish): GPUs that a node offers through DRA ResourceSlices are added to Allocatable AND to Idle (so
+// "Idle = Allocatable minus what the pods hold" keeps holding: no pod has been added yet when the snapshot calls this);
+// a non-positive count changes nothing.
+//@ func (*NodeInfo).AddDRAGPUs
+//@   props C14 C01 C10
+//@   requires nodeShape(ni) && ni.Allocatable != ni.Idle
+//@   modifies ni.Allocatable.gpus, ni.Idle.gpus, ni.AllocatableVector[*], ni.IdleVector[*]
+//@   ensures [bothGrow] ni.Allocatable.gpus == old(ni.Allocatable.gpus) + ite(draGPUs > 0.0, draGPUs, 0.0) && ni.Idle.gpus == old(ni.Idle.gpus) + ite(draGPUs > 0.0, draGPUs, 0.0)
 //@ end
